@@ -81,11 +81,11 @@ theorem compileFn_shape (env : Env) (st : St) (g : AFn) :
 
 theorem stepU {env : Env} {file : AFile} {G : List String} {P : Prog} {F : GFile} (hl : Link env file G P F) {n : Nat}
     (ha : SimA env file G P F n) : SimU env file G P F (n + 1) := by
-  intro g hg hgG η vs gvs w gw hargs hw
+  intro g hg hgG η vs gvs w gw hfeq hargs hw
   rw [Sem.apply]; simp only [hl.fnSrc g hg hgG, AFn.toFn]
   obtain ⟨st, hfind, hlocal⟩ := hl.fnGo g hg hgG
   simp only [localOK, srcLocalOK, goLocalOK, Bool.and_eq_true, Bool.not_eq_true', compileFn_shape] at hlocal
-  obtain ⟨⟨⟨⟨hps, hrs⟩, hfrag⟩, hret⟩, ⟨hnodup0, hblank⟩, hcallees⟩ := hlocal
+  obtain ⟨⟨⟨⟨hps, hrs⟩, hfrag⟩, hret⟩, ⟨⟨hnodup0, hblank⟩, hcallees⟩, hfnames⟩ := hlocal
   have hnodup := of_decide_eq_true hnodup0
   clear hnodup0
   have hret' := scalarEq_eq hret
@@ -119,7 +119,7 @@ theorem stepU {env : Env} {file : AFile} {G : List String} {P : Prog} {F : GFile
   have hkeys0 : ∀ y, y ∈ keys (goBind g.params gvs) → y ∈ g.params.map (fun p => vn p.1) := keys_goBind_sub _ _
   have hretP : ¬ gid retName ∈ keys (goBind g.params gvs) := fun h =>
     hdisjPR _ (hkeys0 _ h) _ List.mem_cons_self rfl
-  let Bad : List String := "_" :: calleesA g.body
+  let Bad : List String := "_" :: (calleesA ((paramCtx g).map (·.1)) g.body ++ (fnSigs file G).map (fun e => vn e.1))
   let env1 : GEnv := (gid retName, zero F (goTy g.ret)) :: goBind g.params gvs
   have hrel1 : EnvRel env η (paramCtx g) (Sem.bindParams (g.params.map (·.1)) vs []) env1 :=
     hrel0.go_agree (fun y ty hy => by
@@ -128,10 +128,14 @@ theorem stepU {env : Env} {file : AFile} {G : List String} {P : Prog} {F : GFile
   have hlocalsBad : ∀ y, y ∈ (g.params.map fun p => vn p.1) ++ (gid retName :: ndDecls S) → ¬ y ∈ Bad := by
     intro y hy hb
     have hyL := hsubL y hy
-    simp only [Bad, List.mem_cons] at hb
-    rcases hb with rfl | hc
+    simp only [Bad, List.mem_cons, List.mem_append] at hb
+    rcases hb with rfl | hc | hc
     · rw [List.contains_eq_mem] at hblank; simp [hyL] at hblank
     · have := List.all_eq_true.mp hcallees y hc
+      simp only [Bool.and_eq_true, Bool.not_eq_true', List.contains_eq_mem, decide_eq_false_iff_not] at this
+      exact this.1 hyL
+    · obtain ⟨e, he, rfl⟩ := List.mem_map.mp hc
+      have := List.all_eq_true.mp hfnames e he
       simp only [Bool.and_eq_true, Bool.not_eq_true', List.contains_eq_mem, decide_eq_false_iff_not] at this
       exact this.1 hyL
   have hinv1 : GInv Bad S env1 := by
@@ -150,7 +154,10 @@ theorem stepU {env : Env} {file : AFile} {G : List String} {P : Prog} {F : GFile
       obtain ⟨_, _, _, h2, _, _⟩ := hrel0.1 y ty hy
       exact hretP (e ▸ key_of_lookup_some h2)⟩
   have hsim := ha (.assign retName) st1 g.body η (paramCtx g) [] _ w env1 gw Bad hfrag hrel1 (KRel.nil _) hw (hS ▸ hinv1) htgt1
-    (by simp [Bad]) (fun c hc => by simp only [Bad, List.mem_cons]; exact Or.inr hc)
+    (by simp [Bad]) ⟨hfeq, fun e he => by
+      simp only [Bad, List.mem_cons, List.mem_append]
+      exact Or.inr (Or.inr (List.mem_map_of_mem (f := fun e => vn e.1) (hfeq ▸ he)))⟩
+    (fun c hc => by simp only [Bad, List.mem_cons, List.mem_append]; exact Or.inr (Or.inl hc))
   rw [hS, hret'] at hsim
   have hvd : StmtS F (goBind g.params gvs) gw (.varDecl (gid retName) (goTy g.ret) none) (.ok (env1, .normal) gw) :=
     stmt_varDecl_none (flat_not_absurd (valTy_flat hrs))
